@@ -606,7 +606,8 @@ def evaluate(pat_text, pay_text, recursive, greedy=False):
 # corpus patterns
 @lru_cache(maxsize=1)
 def corpus_patterns():
-    """key -> (pattern module text, own payload text or None); deduplicated by pattern text."""
+    """key -> (pattern module text, own payload text or None, decreasing); deduplicated by pattern
+    text. decreasing: the rewrite creates no operation, so applying it recursively terminates."""
     from xdsl.dialects import pdl
     from xdsl.dialects.builtin import ModuleOp
     from xdsl.dialects.builtin import StringAttr
@@ -642,9 +643,10 @@ def corpus_patterns():
             except Exception:
                 continue
             ptxt = str(single)
+            decreasing = not any(isinstance(o, pdl.OperationOp) for o in rw.body.walk())
             if ptxt not in seen:
                 seen.add(ptxt)
-                out[f"{rel}#{idx}#{i}"] = (ptxt, own)
+                out[f"{rel}#{idx}#{i}"] = (ptxt, own, decreasing)
             # Most corpus patterns come from MLIR's tests and name ops that do not exist here
             # ("foo.op"), so they can never match. A second variant of the same pattern with every
             # unregistered op name replaced by "test.op" (matcher and rewrite alike) can.
@@ -662,7 +664,7 @@ def corpus_patterns():
                 rtxt = str(single)
                 if rtxt not in seen:
                     seen.add(rtxt)
-                    out[f"{rel}#{idx}#{i}~test.op"] = (rtxt, None)
+                    out[f"{rel}#{idx}#{i}~test.op"] = (rtxt, None, decreasing)
     return out
 
 
@@ -975,9 +977,9 @@ def gen_cases(draw, max_segments):
 @st.composite
 def corpus_cases(draw, keys, max_segments):
     key = draw(st.sampled_from(keys))
-    text = corpus_patterns()[key][0]
+    text, _, decreasing = corpus_patterns()[key]
     pay = draw(payloads(text, max_segments))
-    rec = draw(st.integers(0, 3)) == 0
+    rec = bool(decreasing and draw(st.integers(0, 2)) == 0)
     return {"kind": "corpus", "key": key, "payload": pay, "recursive": rec,
             "greedy": draw(st.integers(0, 3)) == 0}
 
@@ -994,7 +996,7 @@ def texts_of(recipe):
     pats = corpus_patterns()
     if recipe["key"] not in pats:
         raise RecipeInvalid(f"corpus pattern {recipe['key']} not found")
-    ptxt, own = pats[recipe["key"]]
+    ptxt, own, _ = pats[recipe["key"]]
     feats = ["corpus:" + recipe["key"]]
     if kind == "corpus":
         paytxt, pf = payload_text(recipe["payload"])
@@ -1121,7 +1123,7 @@ def checks(h):
     for i, k in enumerate(own):
         if i % h.nshards != h.shard:
             continue
-        for rec in (False, True):
+        for rec in ((False, True) if corpus_patterns()[k][2] else (False,)):
             for greedy in (False, True):
                 run_one(h, {"kind": "corpus_own", "key": k, "recursive": rec, "greedy": greedy}, "corpus_own")
 
